@@ -45,7 +45,7 @@ CHECKS = {
 
 
  "C12": (True, "fault-input monitor in subprocesses: structurally mutated batches under RLIMIT_AS with per-query logical step budgets enforced through hook events; panic / death / Err / unanswered / non-error checks",
-         "Worker subprocesses (6 GiB address-space cap) build applications over plugin/algorithm/traversal/output configurations and run empty, single and mutated batches (24 mutation classes); a panic, a process death, an exceeded step budget, an Err from run(), an unanswered query, a response without request, or an ill-formed query answered without error is a violation; untouched valid queries must be answered as when alone. The thorough tier repeats a reduced workload with a debug-profile build (overflow checks, debug assertions, debug-only diagnostics) including a run with the diagnostics directory made unusable.",
+         "Worker subprocesses (6 GiB address-space cap) build applications over plugin/algorithm/traversal/output configurations and run empty, single and mutated batches (25 mutation classes, several with sub-variants); a panic, a process death, an exceeded step budget, an Err from run(), an unanswered query, a response without request, or an ill-formed query answered without error is a violation; untouched valid queries must be answered as when alone. The thorough tier repeats a reduced workload with a debug-profile build (overflow checks, debug assertions, debug-only diagnostics) including a run with the diagnostics directory made unusable.",
          "worker stall >5 min is inconclusive, never a violation; 'must error' asserted only for unambiguous mutations", "3.12"),
  "C13": (True, "runtime oracle under logical loop budgets (KspOuter/KspInner hook events): count, optimality, validity, distinctness, similarity, accept-all comparison, reachability",
          "Runs both k-shortest-path algorithms on sampled networks and configurations under logical step budgets; route count, first-route optimality, walk/loop/accumulation validity, pairwise distinctness and similarity, accept-all >= threshold counts, and error-vs-reachability are asserted per call. A quarter of the worlds charge turn delays (first-route optimality is not decided there, accumulation of every alternative is).",
